@@ -136,6 +136,9 @@ def cmd_check(pid, tier, seed):
         for smp in o["samples"][:1]:
             if len(samples) < 6:
                 samples.append({"job": name, **smp})
+        if violations and os.environ.get("VERIF_STOP_EARLY"):
+            # used by the seeded-change runner only: one reproduced, unlisted violation settles "caught"; the evidence of such a run is partial
+            break
     # functions executed (one traced path of the first job of each distinct module)
     try:
         functions = props.trace_functions_for(jobs)
